@@ -137,6 +137,7 @@ func runFiletree(seed int64, histories, steps int, out *Emitter) {
 			return opts[r.Intn(len(opts))]
 		}
 		qr := rand.New(rand.NewSource(seed*7919 + int64(hi) + 37))
+		var pgr *pager
 		for i := 0; i < steps; i++ {
 			if restartsOn && qr.Intn(150) == 0 {
 				// the network restarts from its own exported genesis (and runs its first block)
@@ -153,6 +154,15 @@ func runFiletree(seed int64, histories, steps int, out *Emitter) {
 			}
 			if r.Intn(10) == 0 {
 				c.NextBlock(6 * time.Second)
+			}
+			if queriesOn && qr.Intn(4) == 0 { // a query record: the query server answers on the current state
+				if pgr == nil {
+					pgr = newPager(qr)
+				}
+				qst, _ := c.ftAbs()
+				q, resp, kind := ftQueryStep(c, qr, pgr, crafted)
+				out.Emit(map[string]interface{}{"mod": "query", "sub": "filetree", "hist": hi, "i": i, "h": c.H, "state": qst, "q": q, "resp": resp})
+				out.Count("query.filetree."+kind, resp != "err")
 			}
 			// a pure path record every few steps (C20)
 			if r.Intn(4) == 0 {
